@@ -2,7 +2,7 @@
 Wrapping decoder (C01, release build), part 5: `Frame::decode()` of the release build (block size from
 the header, every sub-frame, stereo un-mixing in wrapping `i32` arithmetic, interleaving) returns the
 interleaved input for every frame `encode_frame` can return — for every oracle log satisfying
-`OEvent.Ok`, WITHOUT `FrameFits`.
+`OEvent.Ok`.
 -/
 import FlacVerif.Lemmas.WrapSubframe
 import FlacVerif.Lemmas.StrictFrame
